@@ -8,7 +8,29 @@ use proptest::strategy::{Strategy, ValueTree};
 use proptest::test_runner::{Config, RngSeed, TestRunner};
 
 fn main() {
-    let args: Vec<String> = std::env::args().collect();
+    let mut args: Vec<String> = std::env::args().collect();
+    if args.get(1).map(|s| s == "--plan").unwrap_or(false) {
+        // seeds for fuzz_plan: the target decodes arbitrary bytes into a plan, so the seeds are
+        // deterministic pseudo-random byte strings of several lengths
+        args.remove(1);
+        let dir = args.get(1).expect("dir").clone();
+        let n: usize = args.get(2).and_then(|s| s.parse().ok()).unwrap_or(96);
+        std::fs::create_dir_all(&dir).unwrap();
+        let mut x: u64 = 0x9e37_79b9_7f4a_7c15;
+        for i in 0..n {
+            let len = [64usize, 256, 1024, 3000][i % 4];
+            let mut b = Vec::with_capacity(len);
+            while b.len() < len {
+                x ^= x << 13;
+                x ^= x >> 7;
+                x ^= x << 17;
+                b.extend_from_slice(&x.to_le_bytes());
+            }
+            std::fs::write(format!("{}/plan-{:04}", dir, i), b).unwrap();
+        }
+        println!("wrote {} plan seeds to {}", n, dir);
+        return;
+    }
     let dir = args.get(1).expect("dir").clone();
     let n: usize = args.get(2).and_then(|s| s.parse().ok()).unwrap_or(300);
     std::fs::create_dir_all(&dir).unwrap();
